@@ -343,7 +343,8 @@ int main(int argc, char **argv) {
         uint64_t total = 0;
         { char *t = strdup(bar2 + 1); for (char *q = strtok(t, ","); q; q = strtok(NULL, ",")) {
             if (q[0] == 'g') total += strtoull(q + 2, NULL, 0);
-            else { char *c1 = strchr(q, ':'); total += strtoull(c1 + 1, NULL, 0); } }
+            else { if (q[0] == '@') { char *e = strchr(q + 1, '@'); if (!e) return 2; q = e + 1; }
+                   char *c1 = strchr(q, ':'); total += strtoull(c1 + 1, NULL, 0); } }
           free(t); }
         uint8_t *base = mmap(NULL, (total + 1) * page, PROT_NONE, MAP_PRIVATE | MAP_ANONYMOUS | MAP_NORESERVE, -1, 0);
         if (base == MAP_FAILED) return 2;
@@ -352,6 +353,15 @@ int main(int argc, char **argv) {
         uint8_t *at = base;
         for (char *q = strtok(bar2 + 1, ","); q; q = strtok(NULL, ",")) {
           if (q[0] == 'g') { at += strtoull(q + 2, NULL, 0) * page; continue; }
+          // @HEXPATH@off:pages:prot — this part comes from another file
+          int sfd = fd;
+          if (q[0] == '@') {
+            char *e = strchr(q + 1, '@'); if (!e) return 2; *e = 0;
+            char p2[512]; int l2 = unhex(q + 1, p2); p2[l2] = 0;
+            sfd = open(p2, O_RDONLY);
+            if (sfd < 0) { perror(p2); return 2; }
+            q = e + 1;
+          }
           char *c1 = strchr(q, ':'); char *c2 = strchr(c1 + 1, ':');
           uint64_t off = strtoull(q, NULL, 0), np = strtoull(c1 + 1, NULL, 0);
           const char *prot = c2 + 1;
@@ -363,7 +373,8 @@ int main(int argc, char **argv) {
           else if (!strcmp(prot, "wx")) pr = PROT_WRITE | PROT_EXEC;
           else if (!strcmp(prot, "x")) pr = PROT_EXEC;
           else if (!strcmp(prot, "rwx")) pr = PROT_READ | PROT_WRITE | PROT_EXEC;
-          if (mmap(at, np * page, pr, MAP_PRIVATE | MAP_FIXED, fd, off) == MAP_FAILED) { perror("mmap module"); return 2; }
+          if (mmap(at, np * page, pr, MAP_PRIVATE | MAP_FIXED, sfd, off) == MAP_FAILED) { perror("mmap module"); return 2; }
+          if (sfd != fd) close(sfd);
           if (first_pr < 0) first_pr = pr;
           at += np * page;
         }
